@@ -420,8 +420,18 @@ pub struct SetMatcher {
     pub sets: BTreeMap<String, Vec<SetVal>>,
 }
 
+thread_local! {
+    /// C17: when armed (Some), every SetMatcher::match_value call records its (name, value) query.
+    pub static QUERY_LOG: std::cell::RefCell<Option<Vec<(String, SetVal)>>> = const { std::cell::RefCell::new(None) };
+}
+
 impl ListMatcher for SetMatcher {
     fn match_value(&self, list_name: &str, val: &LhsValue<'_>) -> bool {
+        QUERY_LOG.with(|l| {
+            if let (Some(log), Some(v)) = (l.borrow_mut().as_mut(), SetVal::of(val)) {
+                log.push((list_name.to_string(), v));
+            }
+        });
         match (self.sets.get(list_name), SetVal::of(val)) {
             (Some(vs), Some(v)) => vs.contains(&v),
             _ => false,
